@@ -98,6 +98,132 @@ def counters_near_wrap(rng):
     return out
 
 
+def cut_sets(big, bs=16):
+    """Systematic fragmentations of short messages around the block boundary: tuples of fragment lengths.
+    Every 2-way cut (a | L-a, a = 0..L, so empty fragments included) of every length L up to 2*bs+9 (3*bs+2 in the
+    thorough tier); every 3-way cut with both cut points taken from the boundary set {0,1,2, bs-2..bs+2, 2bs-1..2bs+2,
+    3bs-1,3bs, L-1, L} for lengths around each block boundary (thorough: every 3-way cut of every length up to 2*bs+2).
+    The class aimed at: a fragment ending inside a block (a reserve / a partly filled block is kept in the state) followed
+    by a fragment shorter than, equal to, or LONGER than the leftover, or ending exactly on a block boundary."""
+    out = []
+    for L in range(0, (3 * bs + 2 if big else 2 * bs + 9) + 1):
+        for a in range(0, L + 1):
+            out.append((a, L - a))
+    lens3 = list(range(0, 2 * bs + 3)) if big else [1, 2, bs - 1, bs, bs + 1, bs + 2, 2 * bs - 1, 2 * bs, 2 * bs + 1, 2 * bs + 2, 3 * bs, 3 * bs + 1]
+    for L in lens3:
+        if big:
+            pts = list(range(0, L + 1))
+        else:
+            pts = sorted({q for q in (0, 1, 2, bs - 2, bs - 1, bs, bs + 1, bs + 2, 2 * bs - 1, 2 * bs, 2 * bs + 1, 2 * bs + 2,
+                                        3 * bs - 1, 3 * bs, L - 1, L) if 0 <= q <= L})
+        for i, a in enumerate(pts):
+            for b in pts[i:]:
+                out.append((a, b - a, L - b))
+    return out
+
+
+def frag(data, cut):
+    parts, pos = [], 0
+    for n in cut:
+        parts.append(data[pos:pos + n])
+        pos += n
+    return parts
+
+
+def sweep_pairs(g, big, thin=1):
+    """(fragmented Step-level op, one-shot high-level op, kind) for the unauthenticated streaming bundles"""
+    pairs = []
+    cuts16 = cut_sets(big, 16)[::thin]
+    k, iv = g.key(), g.rb(16)
+    for i, c in enumerate(cuts16):
+        if i % 50 == 0:
+            k, iv = g.key(), g.rb(16)
+        m = g.rb(sum(c))
+        ps = " ".join(hx(x) for x in frag(m, c))
+        pairs.append(("ctrS %s %s %s" % (hx(k), hx(iv), ps), "ctr %s %s %s" % (hx(k), hx(iv), hx(m)), "stream2"))
+        pairs.append(("cfbS E %s %s %s" % (hx(k), hx(iv), ps), "cfb E %s %s %s" % (hx(k), hx(iv), hx(m)), "stream"))
+        pairs.append(("cfbS D %s %s %s" % (hx(k), hx(iv), ps), "cfb D %s %s %s" % (hx(k), hx(iv), hx(m)), "stream"))
+        pairs.append(("macS %s %s G" % (hx(k), ps), "mac %s %s" % (hx(k), hx(m)), "tag"))
+    for i, c in enumerate(cut_sets(big, 32)[::2 * thin]):
+        m = g.rb(sum(c))
+        ps = " ".join(hx(x) for x in frag(m, c))
+        kk = g.rb((0, 7, 32, 33)[i % 4])
+        pairs.append(("hashS %s G" % ps, "hash %s" % hx(m), "tag"))
+        pairs.append(("hmacS %s %s G" % (hx(kk), ps), "hmac %s %s" % (hx(kk), hx(m)), "tag"))
+    # block-wise bundles: every cut at a block boundary, ragged tail only in the last fragment
+    for nb in range(2, 6):
+        for tail in (0, 1, 15):
+            for a in range(1, nb + 1):
+                for b in range(a, nb + 1):
+                    cut = [16 * a, 16 * (b - a), 16 * (nb - b) + tail]
+                    if cut[-1] == 0:
+                        cut = cut[:-1]
+                    cut = [x for j, x in enumerate(cut) if x or j == len(cut) - 1]
+                    if any(x < 16 for x in cut):
+                        continue
+                    k, iv = g.key(), g.rb(16)
+                    m = g.rb(sum(cut))
+                    ps = " ".join(hx(x) for x in frag(m, cut))
+                    for mode in "ED":
+                        # ECB: fragments are independent; CBC: chained through st->block
+                        pairs.append(("ecbS %s %s %s" % (mode, hx(k), ps), "ecb %s %s %s" % (mode, hx(k), hx(m)), "stream0"))
+                        pairs.append(("cbcS %s %s %s %s" % (mode, hx(k), hx(iv), ps), "cbc %s %s %s %s" % (mode, hx(k), hx(iv), hx(m)), "stream0"))
+                        if tail == 0:
+                            pairs.append(("bdeS %s %s %s %s" % (mode, hx(k), hx(iv), ps), "bde %s %s %s %s" % (mode, hx(k), hx(iv), hx(m)), "stream0"))
+    return pairs
+
+
+def stream_payload(kind, out):
+    """the octets a fragmented op produced (state tokens stripped) / the tag"""
+    t = out.split()
+    if kind == "stream":
+        return "".join(c for c in t[:-1] if c != "-")
+    if kind == "stream2":
+        return "".join(c for c in t[:-2] if c != "-")
+    if kind == "stream0":
+        return "".join(c for c in t if c != "-")
+    return t[-1] if t else ""
+
+
+def sweep_aead(g, big, run, thin=1):
+    """DWP / CHE: (Step-level op, expected output) -- the expectation comes from the one-shot Wrap of the implementation.
+    E: encrypt in fragments == ciphertext of Wrap;  AD: absorb + decrypt the ciphertext in fragments (I split too) ==
+    plaintext and tag of Wrap;  I: associated data in fragments == tag of Wrap."""
+    cuts = cut_sets(big, 16)[::thin]
+    res = []
+    for name in ("dwp", "che"):
+        ws, meta = [], []
+        k, iv = g.key(), g.rb(16)
+        for i, c in enumerate(cuts):
+            if i % 50 == 0:
+                k, iv = g.key(), g.rb(16)
+            pt = g.rb(sum(c))
+            c2 = cuts[(7 * i + 3) % len(cuts)]
+            ad = g.rb(sum(c2))
+            pt3 = g.rb((0, 5, 16, 21)[i % 4])
+            ws.append("%s W %s %s %s -" % (name, hx(k), hx(iv), hx(pt)))
+            ws.append("%s W %s %s %s %s" % (name, hx(k), hx(iv), hx(pt), hx(ad)))
+            ws.append("%s W %s %s %s %s" % (name, hx(k), hx(iv), hx(pt3), hx(pt)))
+            meta.append((k, iv, c, pt, c2, ad, pt3))
+        outs = run(ws)
+        for j, (k, iv, c, pt, c2, ad, pt3) in enumerate(meta):
+            o1, o2, o3 = outs[3 * j].split(), outs[3 * j + 1].split(), outs[3 * j + 2].split()
+            if len(o1) != 3 or len(o2) != 3 or len(o3) != 3 or o1[0] != "ok" or o2[0] != "ok" or o3[0] != "ok":
+                res.append((ws[3 * j], "ok"))          # a valid Wrap call was not accepted
+                continue
+            head = "%sS %s %s " % (name, hx(k), hx(iv))
+            pf = frag(pt, c)
+            res.append((head + " ".join("E" + hx(x) for x in pf), " ".join(hx(x) for x in frag(bytes.fromhex(o1[1]) if o1[1] != "-" else b"", c))))
+            ct = bytes.fromhex(o2[1]) if o2[1] != "-" else b""
+            toks = ["I" + hx(x) for x in frag(ad, c2)]
+            for x in frag(ct, c):
+                toks += ["A" + hx(x), "D" + hx(x)]
+            res.append((head + " ".join(toks + ["G"]), " ".join([hx(x) for x in pf] + [o2[2]])))
+            ct3 = o3[1]
+            res.append((head + " ".join(["I" + hx(x) for x in pf] + ["A" + ct3, "G"]), o3[2]))
+    return res
+
+
 def gen_ops(ctx, exe, w, tier):
     g = Gen(ctx, exe, w)
     rng = ctx.rng
@@ -204,6 +330,16 @@ def gen_ops(ctx, exe, w, tier):
         ops.append("cfbS D %s %s %s" % (hx(k), hx(iv), ps))
         ops.append("ctrS %s %s %s" % (hx(k), hx(iv), ps))
         g.note("stream_fragments", len(parts))
+    # systematic fragment sweep (all 2-way / boundary 3-way cuts, empty fragments included) of every streaming bundle
+    thin = 1 if w == 64 else 3                 # the 32-bit-word build gets every third split
+    sp = sweep_pairs(g, big, thin)
+    for a, b, kind in sp:
+        ops.append(a)
+    sa = sweep_aead(g, big, g.cimpl, thin)
+    for a, e in sa:
+        ops.append(a)
+    g.note("sweep_splits_stream", len(sp))
+    g.note("sweep_splits_aead", len(sa))
     # CTR counters placed just below a wrap by inverting E_K on the implementation
     ctrs, qs = [], []
     for c in counters_near_wrap(rng):
@@ -731,6 +867,25 @@ def search(ctx, exe, w, n=150, focus=None, differing=()):
     for op, e, o in zip(hops, hexp, run(hops)):
         if o != e:
             found.append(("helper:" + op.split()[0], "kat\n%s\n%s\n" % (op, e), "%s -> %s, exact arithmetic gives %s" % (op, o, e)))
+    # 4b'. systematic fragment sweep: fragmented == one-shot, for every streaming bundle (implementation only)
+    sp = sweep_pairs(g, False)
+    oa = run([x[0] for x in sp])
+    ob = run([x[1] for x in sp])
+    nfr = 0
+    for (a, b, kind), x, y in zip(sp, oa, ob):
+        want = y.split()[1] if len(y.split()) > 1 else y
+        if stream_payload(kind, x) != want.replace("-", "") and nfr < 6:
+            nfr += 1
+            found.append(("fragments:" + a.split()[0], "same\n%s\n%s\n%s\n" % (a, b, kind),
+                          "fragmented processing differs from one-shot: %s -> %s ; %s -> %s" % (a[:160], x[:80], b[:100], y[:80])))
+    sa = sweep_aead(g, False, run)
+    nfr = 0
+    for (a, e), x in zip(sa, run([x[0] for x in sa])):
+        ok = (x == e) or (e == "ok" and x.startswith("ok "))
+        if not ok and nfr < 6:
+            nfr += 1
+            found.append(("fragments:" + a.split()[0], "kat\n%s\n%s\n" % (a, e),
+                          "fragmented Step interface differs from one-shot Wrap (octets / tag): %s -> %s, expected %s" % (a[:200], x[:100], e[:100])))
     # 4c. one-shot == fragmented (streaming bundles), HMAC key padding identity, PBKDF2 == iterated HMAC
     sops, sexp = [], []          # (op, function of its output) pairs: both sides are implementation outputs
     pairs = []
@@ -961,6 +1116,8 @@ def replay(ctx, path):
             got, want = "".join(c for c in t[:-1] if c != "-"), (y.split() + ["", ""])[1].replace("-", "")
         elif lines[3] == "stream2":
             got, want = "".join(c for c in t[:-2] if c != "-"), (y.split() + ["", ""])[1].replace("-", "")
+        elif lines[3] == "stream0":
+            got, want = "".join(c for c in t if c != "-"), (y.split() + ["", ""])[1].replace("-", "")
         elif lines[3] == "tag":
             got, want = (t[-1] if t else ""), (y.split() + ["", ""])[1]
         else:
